@@ -51,6 +51,21 @@ pub fn names_from_universe(u: &Universe) -> Names {
         }
     }
     n.classes.extend(u.extra_classes.iter().cloned());
+    // coherent (class, method, line) triples for the trace generators: real ones, and the
+    // same with a spelling that merely contains the class name
+    for c in u.classes.iter().take(20) {
+        for m in c.methods.iter().take(2) {
+            for l in c.lines.iter().take(2) {
+                n.hot.push((c.name.clone(), m.clone(), *l));
+            }
+        }
+    }
+    for (v, ci) in u.qualified_classes.iter().take(10) {
+        let c = &u.classes[*ci];
+        if let (Some(m), Some(l)) = (c.methods.first(), c.lines.first()) {
+            n.hot.push((v.clone(), m.clone(), *l));
+        }
+    }
     n.methods.extend(u.foreign_methods.iter().cloned());
     n.lines.extend(u.base_lines.iter().copied());
     if n.classes.is_empty() {
@@ -229,6 +244,32 @@ pub fn diff_remap<'a, A: Remap<'a>, B: Remap<'a>>(
                 rep.count("api_remap_frame_by_line", 1);
                 if fa != fb {
                     viol(rep, "remap_frame(by line)", query_json(c, m, l, None, None), show_frames(&fa), show_frames(&fb), "");
+                }
+            }
+        }
+    }
+    // spellings that contain a class name of the file, with that class's own methods and lines
+    for (v, ci) in &u.qualified_classes {
+        let cu = &u.classes[*ci];
+        let (x, y) = (a.class(v), b.class(v));
+        rep.count("evaluations", 1);
+        if x != y {
+            viol(rep, "remap_class", Json::s(v.clone()), Json::s(format!("{x:?}")), Json::s(format!("{y:?}")), "");
+        }
+        for m in cu.methods.iter().take(3) {
+            let (x, y) = (a.method(v, m), b.method(v, m));
+            rep.count("evaluations", 1);
+            if x != y {
+                viol(rep, "remap_method", query_json(v, m, 0, None, None), Json::s(format!("{x:?}")), Json::s(format!("{y:?}")), "");
+            }
+            for l in cu.lines.iter().take(4) {
+                a.frames(v, m, *l as usize, Some(file0), None, &mut fa);
+                b.frames(v, m, *l as usize, Some(file0), None, &mut fb);
+                rep.count("evaluations", 1);
+                rep.count("api_remap_frame_by_line", 1);
+                rep.count("queries_with_a_spelling_that_contains_a_class_name", 1);
+                if fa != fb {
+                    viol(rep, "remap_frame(by line)", query_json(v, m, *l, Some(file0), None), show_frames(&fa), show_frames(&fb), "");
                 }
             }
         }
